@@ -166,6 +166,11 @@ def run(ctx: Ctx) -> Outcome:
                                            "oracle", nontrivial, label="rejects:")
     engcheck.report(outf, resultsf, "C04", oracle)
     out.merge(outf)
+    # ... and with memory guarding switched off (`mem_guard_off`): the same semantics without the locks
+    outg, resultsg = engcheck.run_programs(ctx, ctx.n(500, 3000), dict(GEN, n_stmts=ctx.n(10, 20), _guard_off=True),
+                                           "oracle", nontrivial, label="guard-off:")
+    engcheck.report(outg, resultsg, "C04", oracle)
+    out.merge(outg)
     # the `.shape` setter (known to be false of the unchanged code once an in-place update follows)
     for v in shape_setter_cases(ctx):
         if v.signature not in seen:
@@ -179,7 +184,12 @@ def run(ctx: Ctx) -> Outcome:
             out.violations.append(Violation(sig, f"{name} on a tensor of shape {shape}: {msg}", {"kind": "noop", "name": name}))
     for name, msg in mutable_arg_cases():
         out.violations.append(Violation(f"C04|mutable-argument|{name}", f"{name}: {msg}", {"kind": "mutarg", "name": name}))
-    out.evaluations += 26 + 8
+    for name, msg in dtype_inplace_cases():
+        sig = f"C04|dtype-family|{name.split('|')[0]}"
+        if sig not in seen:
+            seen.add(sig)
+            out.violations.append(Violation(sig, f"{name}: {msg}", {"kind": "dtypefam", "name": name}))
+    out.evaluations += 26 + 8 + 42
     out.assumptions = ["advanced-index assignment whose value aliases the target (NumPy's result is order-dependent there) is excluded",
                        "H_fresh: leaves own fresh memory (tensors made with copy=False from overlapping user arrays are outside the model)",
                        "owner tensors are C- or Fortran-ordered leaves; the copy of the base made by an in-place update is laid out "
@@ -230,6 +240,60 @@ def mutable_arg_cases(only=None):
                         f"(shape {v.shape}); NumPy: {w.tolist()} (shape {w.shape})"))
         elif bool(np.shares_memory(v.data, x.data)) != bool(np.shares_memory(w, a)):
             out.append((name, "memory sharing with the base differs from NumPy's after the update"))
+    return out
+
+
+def dtype_inplace_cases(only=None):
+    """view families over other dtypes than float64 (float32, float16, constant integer and boolean tensors), updated in
+    place with exactly representable operands: dtype, values, memory sharing and `.base` after every statement equal
+    NumPy's; statements NumPy refuses for the dtype (an unsafe cast into an integer array) are refused.
+    -> [(name, message)]"""
+    import mygrad as mg
+
+    out = []
+    stmts = [
+        ("v*=2", lambda x, v, w: v.__imul__(2.0), lambda a, b, c: b.__imul__(2.0)),
+        ("x[::2]=0.5", lambda x, v, w: x.__setitem__(slice(None, None, 2), 0.5), lambda a, b, c: a.__setitem__(slice(None, None, 2), 0.5)),
+        ("add(v,1,out=v)", lambda x, v, w: np.add(v, 1.0, out=v), lambda a, b, c: np.add(b, 1.0, out=b)),
+        ("w+=arr", lambda x, v, w: w.__iadd__(np.ones(w.shape, dtype=w.dtype)), lambda a, b, c: c.__iadd__(np.ones(c.shape, dtype=c.dtype))),
+        ("x+=1.5", lambda x, v, w: x.__iadd__(1.5), lambda a, b, c: a.__iadd__(1.5)),
+        ("mul(w,w,out=w,where=m)", lambda x, v, w: np.multiply(w, w, out=w, where=np.array([[True, False], [False, True], [True, True]])),
+         lambda a, b, c: np.multiply(c, c, out=c, where=np.array([[True, False], [False, True], [True, True]]))),
+        ("x[[0,0,5]]=v0", lambda x, v, w: x.__setitem__(np.array([0, 0, 5]), 2.0), lambda a, b, c: a.__setitem__(np.array([0, 0, 5]), 2.0)),
+    ]
+    for dt in ("float32", "float16", "int32", "int64", "uint8", "bool"):
+        for k in range(len(stmts)):
+            seq = [stmts[k], stmts[(k + 3) % len(stmts)], stmts[(k + 5) % len(stmts)]]
+            name = f"{dt}|" + ";".join(s[0] for s in seq)
+            if only is not None and name != only:
+                continue
+            a = (np.arange(6) % 2 == 0) if dt == "bool" else (np.arange(6) + 1).astype(dt)
+            x = mg.tensor(a.copy())
+            v, w = x[1:4], x.reshape(2, 3).T
+            b, c = a[1:4], a.reshape(2, 3).T
+            for sname, f, g in seq:
+                e1 = e2 = None
+                try:
+                    f(x, v, w)
+                except Exception as e:  # noqa: BLE001
+                    e1 = type(e).__name__
+                try:
+                    g(a, b, c)
+                except Exception as e:  # noqa: BLE001
+                    e2 = type(e).__name__
+                if (e1 is None) != (e2 is None):
+                    out.append((name, f"`{sname}`: MyGrad {'raises ' + e1 if e1 else 'accepts'}, NumPy {'raises ' + e2 if e2 else 'accepts'}"))
+                    break
+                bad = None
+                for nm, t, r in (("x", x, a), ("v", v, b), ("w", w, c)):
+                    if t.dtype != r.dtype or t.shape != r.shape or not np.array_equal(t.data, r):
+                        bad = f"after `{sname}` {nm} is {t.data.tolist()} ({t.dtype}); NumPy: {r.tolist()} ({r.dtype})"
+                        break
+                if bad is None and not (np.shares_memory(v.data, x.data) and np.shares_memory(w.data, x.data) and v.base is x and w.base is x):
+                    bad = f"after `{sname}` the views no longer share the base's memory / name it as their base"
+                if bad:
+                    out.append((name, bad))
+                    break
     return out
 
 
@@ -433,6 +497,10 @@ def check_witness(w):
 
 def replay(data) -> bool:
     r = data["replay"]
+    if r.get("kind") == "dtypefam":
+        f = dtype_inplace_cases(only=r["name"])
+        print(f)
+        return bool(f)
     if r.get("kind") == "mutarg":
         f = mutable_arg_cases(only=r["name"])
         print(f)
